@@ -156,6 +156,13 @@ def expected_markers(m, table, query_genes, ref_genes, min_markers,
             if len(got) < min_markers and 'None' in table:
                 got |= set(table['None']) & q
         if not got:
+            if min_markers <= 0:
+                # no minimum => no fallback is due; what happens to a
+                # non-root parent left without any marker is not stated
+                res['status'] = 'unjudged'
+                res['why'] = f'{key} has no marker and min_markers is 0'
+                res['markers'][key] = got
+                continue
             return {'status': 'must_error', 'markers': {},
                     'why': f'{key} has no usable marker even after fallback'}
         res['markers'][key] = got
